@@ -1,6 +1,6 @@
 (* C06: closure under sequences of conversions (every step that is not an INPUT conversion of the free variable). *)
 From Coq Require Import List ZArith QArith Bool Lia Reals Lra Qreals.
-From Verif Require Import Sexp UnitAlg UnitAlgP Expr Eval ModelSM ConvertVar C06EvalP C06P C06ShapeP C06ReplaceP C06StateP C06MainP.
+From Verif Require Import Sexp UnitAlg UnitAlgP Expr Eval ModelSM ConvertVar C06EvalP C06P C06ShapeP C06ReplaceP C06StateP C06MainP C06FoldP.
 Import ListNotations.
 
 (* ---- bookkeeping facts about convert_variable ------------------------------------------------------------------ *)
@@ -57,14 +57,7 @@ Proof.
   intros _. apply nth_error_Some. congruence.
 Qed.
 
-Lemma lhs_nodupb_sound l : lhs_nodupb l = true -> NoDup l.
-Proof.
-  induction l as [|x r IH]; cbn [lhs_nodupb]; intros H; [constructor|].
-  apply andb_true_iff in H as [H1 H2]. constructor; [|apply IH; exact H2].
-  intros Hin. apply negb_true_iff in H1. assert (E : existsb (clhs_eqb x) r = true).
-  { apply existsb_exists. exists x. split; [exact Hin|]. destruct x as [a|a b]; cbn [clhs_eqb]; rewrite ?Nat.eqb_refl; reflexivity. }
-  congruence.
-Qed.
+
 
 Lemma step_ok_meaning s v d : step_ok s v d = true ->
   premises_hold s = true /\ (v < length (cvars s))%nat /\
